@@ -395,10 +395,19 @@ type aliasMap struct {
 }
 
 func (am aliasMap) varAliases(k string) (vals []string) {
+	return am.walkAliases(k, map[string]struct{}{})
+}
+
+// Aliases can form a cycle ({{ $a := $b }}{{ $b := $a }}), visit every variable only once.
+func (am aliasMap) walkAliases(k string, visited map[string]struct{}) (vals []string) {
+	if _, ok := visited[k]; ok {
+		return nil
+	}
+	visited[k] = struct{}{}
 	vals = append(vals, k)
 	if as, ok := am.aliases[k]; ok {
 		for val := range as {
-			vals = append(vals, am.varAliases(val)...)
+			vals = append(vals, am.walkAliases(val, visited)...)
 		}
 	}
 	return vals
